@@ -66,8 +66,9 @@ theorem wfr_insert {s s' : Sys π ν} (hs : Sane s) (hs' : Sane s') (hw : WFr s)
     (hroot : pidx = [] ↔ kindOfC c = .source)
     (hmulti : 1 < pidx.length → kindOfC c = .pmux)
     (hmux : kindOfC c = .pmux → ∀ p ∈ s.comps, kindOfC p.2 ≠ .pmux)
-    (hlen : pidx.length = plist.length)
-    (hres : ∀ e ∈ plist, ∃ q ∈ pidx, s.getIndex e = .ok (some q)) : WFr s' := by
+    (hres : s.resolveAll plist = .ok (pidx.map some)) (hpnd : pidx.Nodup) : WFr s' := by
+  rw [resolveAll_eq] at hres
+  have hlen : pidx.length = plist.length := by simpa using resolveList_length hres
   have hnames : s'.names = s.names ++ [nameOfC c] := by simp [Sys.names, hcomps]
   have hcn : nameOfC c ∉ s.names := fun h => hn1 ((names_eq_nodes_keys hw _).mpr h)
   have hmem : ∀ p, p ∈ s'.comps ↔ p ∈ s.comps ∨ p = (i, c) := by intro p; simp [hcomps]
@@ -211,8 +212,8 @@ theorem wfr_insert {s s' : Sys π ν} (hs : Sane s) (hs' : Sane s') (hw : WFr s)
     · have hpi := hold p hp
       have hpr := preds_append_old hedges hXi hpi
       rw [hpr] at hm ⊢
-      obtain ⟨l, hl, hl'⟩ := hw.inputs p hp hm
-      refine ⟨l, ?_, hl'⟩
+      obtain ⟨l, hl, hl', hlnd⟩ := hw.inputs p hp hm
+      refine ⟨l, ?_, hl', hlnd⟩
       apply parentsOf_congr hpr _ hl
       · intro x hx r hr
         obtain ⟨r', hr', hx'⟩ := (parentsOf_multi hm hl).2 x hx
@@ -223,27 +224,32 @@ theorem wfr_insert {s s' : Sys π ν} (hs : Sane s) (hs' : Sane s') (hw : WFr s)
         exact hstable x q hr
       · rw [hpn, dget_dset]; simp [hpi]
     · simp only [hpreds_i] at hm ⊢
-      have hk : (X.map (·.1)).length ≤ plist.length := by omega
-      have htot : ∃ res, resolveList s'.nodes s'.rails (plist.take (X.map (·.1)).length) = .ok res := by
-        apply resolveList_total
-        intro x hx
-        obtain ⟨q, _, hq⟩ := hres x (List.mem_of_mem_take hx)
-        exact ⟨_, hstable x q hq⟩
-      obtain ⟨res, hres'⟩ := htot
-      refine ⟨res, ?_, ?_⟩
+      -- the new node's predecessors are exactly `pidx`
+      have hsubP : ∀ q ∈ pidx, q ∈ X.map (·.1) := fun q hq => List.mem_map.mpr ⟨(q, i), hX' q hq, rfl⟩
+      have hkeq : (X.map (·.1)).length = pidx.length :=
+        Nat.le_antisymm hlenX (hpnd.length_le_of_subset hsubP)
+      have hstab' : resolveList s'.nodes s'.rails plist = .ok (pidx.map some) := by
+        apply resolveList_congr hres
+        intro x hx r hr
+        obtain ⟨r', hr', hx'⟩ := (resolveList_mem hres).2 x hx
+        rw [hr] at hx'
+        simp only [Except.ok.injEq] at hx'
+        subst hx'
+        obtain ⟨q, _, rfl⟩ := List.mem_map.mp hr'
+        have := hstable x q (by rw [getIndex_eq_resolve]; exact hr)
+        rw [getIndex_eq_resolve] at this; exact this
+      refine ⟨pidx.map some, ?_, ?_, ?_⟩
       · unfold Sys.parentsOf
         simp only [hpreds_i]
         have hle : ¬ (X.map (·.1)).length ≤ 1 := by omega
         have hlt : ¬ plist.length < (X.map (·.1)).length := by omega
         simp only [hle, if_false, hpn, dget_dset, if_true, hlt]
-        rw [resolveAll_eq]; exact hres'
+        rw [resolveAll_eq, hkeq, hlen, List.take_length]
+        exact hstab'
       · intro r hr
-        obtain ⟨x, hx, hxr⟩ := (resolveList_mem hres').1 r hr
-        obtain ⟨q, hq, hq'⟩ := hres x (List.mem_of_mem_take hx)
-        have := hstable x q hq'
-        rw [getIndex_eq_resolve, hxr] at this
-        simp only [Except.ok.injEq] at this
-        exact ⟨q, List.mem_map.mpr ⟨(q, i), hX' q hq, rfl⟩, this⟩
+        obtain ⟨q, hq, rfl⟩ := List.mem_map.mp hr
+        exact ⟨q, hsubP q hq, rfl⟩
+      · exact nodup_map_on (fun a _ b _ h => Option.some.inj h) hpnd
 
 /-! ### add_source -/
 
@@ -409,6 +415,79 @@ theorem accepts_of {p : Kind} {c : CType} (h1 : p.ctype ≠ .LOAD) (h2 : c ≠ .
   · next h => exact absurd h h1
   · simpa using h2
 
+theorem resolveParents_resolveAll {s : Sys π ν} {c : π} {l : List String} {pidx : List Nat}
+    (h : s.resolveParents c l = .ok pidx) : s.resolveAll l = .ok (pidx.map some) := by
+  induction l generalizing pidx with
+  | nil => simp [Sys.resolveParents] at h; subst h; rfl
+  | cons x xs ih =>
+    unfold Sys.resolveParents at h
+    split at h
+    · simp at h
+    · simp at h
+    · next i hi =>
+      split at h
+      · simp at h
+      · split at h
+        · simp at h
+        · split at h
+          · simp at h
+          · next l' hl' =>
+            simp only [Except.ok.injEq] at h; subst h
+            unfold Sys.resolveAll
+            rw [hi, ih hl']
+            rfl
+
+/-- what the parent argument of an accepted `add_comp` looks like -/
+theorem plistArg_spec {s : Sys π ν} {c : π} {par : ParentArg} {plist : List String}
+    (h : (match par with
+      | .many ps =>
+        if ps = [] then (.error "ValueError" : Except String (List String))
+        else if ¬ ps.Nodup then .error "ValueError"
+        else if (kindOfC c).ctype ≠ CType.PMUX then .error "ValueError"
+        else if !ps.all s.chkParent then .error "ValueError"
+        else
+          match s.resolveAll ps with
+          | .error e => .error e
+          | .ok rl => if ¬ rl.Nodup then .error "ValueError" else .ok ps
+      | .one p => if s.chkParent p then .ok [p] else .error "ValueError") = .ok plist) :
+    (1 < plist.length → (kindOfC c).ctype = .PMUX) ∧ (∀ rl, s.resolveAll plist = .ok rl → rl.Nodup) := by
+  cases par with
+  | one p =>
+    simp only at h
+    split at h
+    · simp only [Except.ok.injEq] at h; subst h
+      refine ⟨by simp, ?_⟩
+      intro rl hrl
+      rw [resolveAll_eq] at hrl
+      have := resolveList_length hrl
+      match rl, this with
+      | [_], _ => simp
+    · simp at h
+  | many ps =>
+    simp only at h
+    split at h
+    · simp at h
+    · split at h
+      · simp at h
+      · split at h
+        · simp at h
+        · next hp =>
+          split at h
+          · simp at h
+          · split at h
+            · simp at h
+            · next rl hrl =>
+              split at h
+              · simp at h
+              · next hnd =>
+                simp only [Except.ok.injEq] at h; subst h
+                refine ⟨fun _ => by simpa using hp, ?_⟩
+                intro rl' hrl'
+                rw [hrl] at hrl'
+                simp only [Except.ok.injEq] at hrl'
+                subst hrl'
+                simpa using hnd
+
 theorem wfr_addComp {s : Sys π ν} (hs : Sane s) (hw : WFr s) (par : ParentArg) (c : π) (g r : String) :
     WFr (s.addComp par c g r).1 := by
   have hsane := sane_addComp hs par c g r
@@ -494,28 +573,16 @@ theorem wfr_addComp {s : Sys π ν} (hs : Sane s) (hw : WFr s) (par : ParentArg)
               intro h; exact hnsrc ((ctype_source_iff _).mpr h)
             · intro hlen
               -- several parents: the argument was a list, which is only accepted for a PMux
-              cases par with
-              | one p =>
-                simp only at hplist
-                split at hplist
-                · simp only [Option.some.injEq] at hplist; subst hplist
-                  simp only [List.length_cons, List.length_nil] at r1 hlen; omega
-                · simp at hplist
-              | many ps =>
-                simp only at hplist
-                split at hplist
-                · simp at hplist
-                · split at hplist
-                  · simp at hplist
-                  · next hp => exact (ctype_pmux_iff _).mp (by simpa using hp)
+              exact (ctype_pmux_iff _).mp ((plistArg_spec hplist).1 (by rw [← r1]; exact hlen))
             · intro hk p hp
               have hct : (kindOfC c).ctype = .PMUX := (ctype_pmux_iff _).mpr hk
               simp only [hct, if_true] at hmux
               have := muxScan_none hmux (nameOfC p.2, p.1) (dget_some_mem (hw.nodes_get p hp)) p.2
                 (payload?_of_mem hs hp)
               exact this
-            · exact r1
-            · exact r2
+            · exact resolveParents_resolveAll hpidx
+            · have := (plistArg_spec hplist).2 _ (resolveParents_resolveAll hpidx)
+              exact nodup_of_nodup_map _ this
 
 end
 end SysLoss
